@@ -30,7 +30,7 @@ def _engine(F, visits, extra_inline=None):
         if extra_inline and extra_inline(fn, ev):
             return True
         return False
-    return sym.Engine(F, inline=pol, max_visits=visits, max_steps=60000, max_paths=3000)
+    return sym.Engine(F, inline=pol, max_visits=visits, max_steps=60000, max_paths=3000, models=sym.SLICE_MODELS, max_depth=8)
 
 
 def _feed_conditions(bits, path, strict=True):
